@@ -6,7 +6,7 @@
 // asked, for every combination of
 //
 //	actor   super admin | ordinary admin | valid CA-issued cert of a non-admin | removed admin |
-//	        cert from a foreign CA | CA-signed cert without digitalSignature | … without the
+//	        cert from a foreign CA | cert from a FEDERATED CA (root configured as federated root) | CA-signed cert without digitalSignature | … without the
 //	        provisioner extension | … without clientAuth
 //	method  GET POST PUT PATCH DELETE HEAD OPTIONS FROB (made up)
 //	path    /admin/admins  /admin/admins/{id}  /admin/provisioners  /admin/provisioners/{name}  /admin/policy
@@ -50,6 +50,7 @@ import (
 	"go.step.sm/crypto/minica"
 	"go.step.sm/crypto/randutil"
 
+	"github.com/smallstep/certificates/authority"
 	"github.com/smallstep/certificates/authority/config"
 	"github.com/smallstep/certificates/authority/provisioner"
 	c "verif/harness/common"
@@ -64,7 +65,7 @@ type Case struct {
 }
 
 var (
-	actors  = []string{"super", "ord", "nobody", "gone", "foreign", "nodigsig", "noext", "noclientauth"}
+	actors  = []string{"super", "ord", "nobody", "gone", "foreign", "federated", "federated-ord", "nodigsig", "noext", "noclientauth"}
 	methods = []string{"GET", "POST", "PUT", "PATCH", "DELETE", "HEAD", "OPTIONS", "FROB"}
 	paths   = []string{"admins", "admin", "provs", "prov", "policy"}
 	muts    = []string{"valid", "replay", "otherpath", "expired", "notyet", "iatfuture", "wrongiss", "issprov",
@@ -98,7 +99,13 @@ func hx(s string) string { return hex.EncodeToString([]byte(s)) }
 
 func newEnv() *env {
 	log.SetOutput(io.Discard)
-	ca := must(fixture.New(fixture.Opts{Config: func(cfg *config.Config) { cfg.AuthorityConfig.EnableAdmin = true }}))
+	// a federated CA: its root is published to clients (roots + federation endpoints) but this
+	// authority never issued under it, so it must not count for admin tokens
+	federated := must(minica.New(minica.WithName("Federated")))
+	ca := must(fixture.New(fixture.Opts{
+		Config: func(cfg *config.Config) { cfg.AuthorityConfig.EnableAdmin = true },
+		Extra:  []authority.Option{authority.WithX509FederatedCerts(federated.Root)},
+	}))
 	e := &env{ca: ca, srv: must(ca.NewServer()), roots: x509.NewCertPool(), actors: map[string]*actor{}}
 	e.roots.AddCert(ca.MiniCA.Root)
 	e.other = must(ecdsa.GenerateKey(elliptic.P256(), rand.Reader))
@@ -141,6 +148,9 @@ func newEnv() *env {
 	}
 	foreign := must(minica.New(minica.WithName("Foreign")))
 	e.actors["foreign"] = direct(foreign, "step", x509.KeyUsageDigitalSignature, x509.ExtKeyUsageClientAuth, provExt)
+	// same certificate shape, issued by the federated CA (super admin's name, copied provisioner extension)
+	e.actors["federated"] = direct(federated, "step", x509.KeyUsageDigitalSignature, x509.ExtKeyUsageClientAuth, provExt)
+	e.actors["federated-ord"] = direct(federated, "ord", x509.KeyUsageDigitalSignature, x509.ExtKeyUsageClientAuth, provExt)
 	e.actors["nodigsig"] = direct(ca.MiniCA, "step", x509.KeyUsageKeyEncipherment, x509.ExtKeyUsageClientAuth, provExt)
 	e.actors["noext"] = direct(ca.MiniCA, "step", x509.KeyUsageDigitalSignature, x509.ExtKeyUsageClientAuth, nil)
 	e.actors["noclientauth"] = direct(ca.MiniCA, "step", x509.KeyUsageDigitalSignature, x509.ExtKeyUsageServerAuth, provExt)
@@ -344,7 +354,7 @@ func (e *env) direct(method, path, tok string, twice bool) (out string) {
 
 func (e *env) viaHTTP(method, path, body, tok string, twice bool) string {
 	serve := func() string {
-		res := e.srv.Serve(e.request(method, path, body, tok), 10*time.Second)
+		res := e.srv.Serve(e.request(method, path, body, tok), 60*time.Second)
 		switch {
 		case res.Panic != "":
 			return "crash"
@@ -368,7 +378,7 @@ func (e *env) run(k Case) (line, impl string) {
 	before := e.admins()
 	// is there a route for (method, path)? asked without credentials: a routed request answers 401
 	// "missing authorization header token", an unrouted one 404/405 (chi routing is an input)
-	probe := e.srv.Serve(e.request(k.Method, path, body, ""), 10*time.Second)
+	probe := e.srv.Serve(e.request(k.Method, path, body, ""), 60*time.Second)
 	routed := probe.Status == 401
 	m1 := e.mint(a, k, path)
 	fieldsS := e.bits(m1)
